@@ -32,7 +32,7 @@ RULE = ("cases: clock scripts for 2..8 cycles: per cycle work duration (0 .. 3 t
         "stall during a sleep, backward steps during work / before do(); tock from {1/32, 1/8, 1/4, 1} given at "
         "construction or changed before do(). non-trivial = some cycle is late by more than one tock, or a backward "
         "step occurs, or the tock was changed after construction; distinct = canonical hash of the script")
-ASSUMPTIONS = ["the harness clock replaces the time module inside hio.base.doing and hio.help.timing during a case",
+ASSUMPTIONS = ["the harness clock replaces the time module inside hio.base.doing and hio.help.timing during a case; in ado mode asyncio.sleep (as seen by doing) advances the harness clock and AsyncTimer reads the harness clock as the loop time",
                "forward jumps of the system clock are excluded (documented as undetectable)",
                "enter of the doers takes no time, so the run starts when do() is called"]
 
@@ -105,6 +105,37 @@ def run_case(case):
     sd, st_ = doing.time, timing.time
     doing.time = clock
     timing.time = clock
+    sa = doing.asyncio
+    ado = case.get("mode") == "ado"
+    if ado:
+        import asyncio as real_asyncio
+
+        class Aio:
+            """asyncio as seen by hio.base.doing: sleep() advances the harness clock instead of waiting."""
+
+            def __getattr__(self, name):
+                return getattr(real_asyncio, name)
+
+            async def sleep(self, d):
+                if d > 0:
+                    clock.sleep(d)
+                await real_asyncio.sleep(0)
+        doing.asyncio = Aio()
+
+        class LoopClock:
+            def time(self):
+                return clock.time()
+
+        class AioTiming:
+            """asyncio as seen by hio.help.timing (AsyncTimer reads asyncio.get_event_loop().time())."""
+
+            def __getattr__(self, name):
+                return getattr(real_asyncio, name)
+
+            def get_event_loop(self):
+                return LoopClock()
+        st_aio = timing.asyncio
+        timing.asyncio = AioTiming()
     try:
         ctock = case["ctor_tock"] if case["ctor_tock"] is not None else tock
         doist = doing.Doist(real=True, tock=ctock, tyme=case["tyme0"])
@@ -116,10 +147,16 @@ def run_case(case):
             clock.back(pre[1])
         worker = Worker(clock, case["cycles"], log, tock=0.0)
         t0 = clock.true
-        doist.do(doers=[worker])
+        if ado:
+            real_asyncio.run(doist.ado(doers=[worker]))
+        else:
+            doist.do(doers=[worker])
     finally:
         doing.time = sd
         timing.time = st_
+        doing.asyncio = sa
+        if ado:
+            timing.asyncio = st_aio
     any_back = bool(pre and pre[1] > 0) or any(c.get("back") and c["back"][1] > 0 for c in case["cycles"])
     any_stall = any(s > 0 for _d, _o, s in clock.sleep_log)
     late = False
@@ -158,6 +195,7 @@ def run_case(case):
     if len(log) != len(case["cycles"]):
         r.fail("C07/cycles", "ran %d cycles, script has %d" % (len(log), len(case["cycles"])))
     r.nontrivial = late or any_back or (case["ctor_tock"] is not None and case["ctor_tock"] != tock)
+    r.labels.append("mode:" + ("ado" if ado else "do"))
     if late:
         r.labels.append("late>1tock")
     if any_back:
@@ -194,7 +232,8 @@ def script(draw, tock_change=True, pre_back=True):
     pre = None
     if pre_back and draw(st.integers(0, 3)) == 0:
         pre = [draw(dur), draw(st.integers(0, 40).map(lambda n: n * unit))]
-    return {"tock": tock, "ctor_tock": ctor, "base": draw(st.integers(1 << 20, 1 << 22)),
+    return {"mode": draw(st.sampled_from(["do", "do", "ado"])),
+            "tock": tock, "ctor_tock": ctor, "base": draw(st.integers(1 << 20, 1 << 22)),
             "tyme0": draw(st.sampled_from([0.0, 1.0, 16.5])), "cycles": cycles, "sleeps": sleeps, "pre": pre}
 
 
